@@ -36,7 +36,7 @@ DEFAULT_ENCODE_SET = frozenset(b' "#<>?`')
 Does not include U+0000 to U+001F nor U+001F or above.
 '''
 
-PASSWORD_ENCODE_SET = DEFAULT_ENCODE_SET | frozenset(b'/@\\')
+PASSWORD_ENCODE_SET = DEFAULT_ENCODE_SET | frozenset(b'%/@\\')
 '''Encoding set for passwords.'''
 
 USERNAME_ENCODE_SET = PASSWORD_ENCODE_SET | frozenset(b':')
@@ -302,11 +302,13 @@ class URLInfo(object):
             parts = [self.scheme, '://']
 
             if self.username:
-                parts.append(normalize_username(self.username))
+                parts.append(normalize_username(
+                    self.username, encoding=self.encoding or 'utf-8'))
 
             if self.password:
                 parts.append(':')
-                parts.append(normalize_password(self.password))
+                parts.append(normalize_password(
+                    self.password, encoding=self.encoding or 'utf-8'))
 
             if self.username or self.password:
                 parts.append('@')
